@@ -470,31 +470,100 @@ def _is_upper_of(node: ast.expr, what: str) -> bool:
     return False
 
 
-def _check_case(prog: Program, res: Result):
-    for fname, key in CASE_FIELDS:
-        q = f"{VAL}.{fname}"
-        fi = prog.func(q)
-        sub = f"instance['{key}']"
-        # flow: some name := upper(instance[key]) ; instance[key] := that name (or directly), before the schema call
-        uppers = set()
-        store_line = None
-        call_line = None
+def _upper_helpers(prog: Program) -> dict:
+    """functions f(d, key) of the validation module that return a copy of d with d[key] upper-cased -> {name: (dict param index, key param index)}"""
+    out = {}
+    for q, fi in prog.funcs.items():
+        if not q.startswith(VAL + ".") or fi.cls:
+            continue
+        ps = fi.params()
+        if len(ps) < 2:
+            continue
+        rets = [r for r in ast.walk(fi.node) if isinstance(r, ast.Return) and isinstance(r.value, ast.Name)]
+        if len(rets) != 1:
+            continue
+        rn = rets[0].value.id
+        copied_from = None
+        upper_key = None
         for n in ast.walk(fi.node):
             if isinstance(n, ast.Assign) and len(n.targets) == 1:
                 t, v = n.targets[0], n.value
-                if isinstance(t, ast.Name) and _is_upper_of(v, sub):
-                    uppers.add(t.id)
-        for n in ast.walk(fi.node):
-            if isinstance(n, ast.Assign) and len(n.targets) == 1 and ast.unparse(n.targets[0]) == sub:
-                v = n.value
-                if (isinstance(v, ast.Name) and v.id in uppers) or _is_upper_of(v, sub):
-                    store_line = n.lineno if store_line is None else min(store_line, n.lineno)
-            if isinstance(n, ast.Call) and attr_chain(n.func) == "validate_schema_instance":
-                call_line = n.lineno if call_line is None else min(call_line, n.lineno)
-        ok = store_line is not None and call_line is not None and store_line < call_line
-        res.ob("R18.4", f"{fname}: '{key}' is upper-cased in the instance before schema validation", ok, prog.loc(fi, fi.node))
+                if isinstance(t, ast.Name) and t.id == rn:
+                    if isinstance(v, ast.Call) and attr_chain(v.func) in ("dict", "copy", "copy.copy", "deepcopy", "copy.deepcopy") and len(v.args) == 1 and isinstance(v.args[0], ast.Name) and v.args[0].id in ps:
+                        copied_from = v.args[0].id
+                    elif isinstance(v, ast.Call) and isinstance(v.func, ast.Attribute) and v.func.attr == "copy" and isinstance(v.func.value, ast.Name) and v.func.value.id in ps:
+                        copied_from = v.func.value.id
+                if isinstance(t, ast.Subscript) and isinstance(t.value, ast.Name) and t.value.id == rn and isinstance(t.slice, ast.Name) and t.slice.id in ps \
+                        and copied_from is not None and _is_upper_of(v, f"{copied_from}[{t.slice.id}]"):
+                    upper_key = t.slice.id
+        if copied_from is not None and upper_key is not None:
+            out[fi.name] = (ps.index(copied_from), ps.index(upper_key))
+    return out
+
+
+def _check_case(prog: Program, res: Result):
+    helpers = _upper_helpers(prog)
+    for fname, key in CASE_FIELDS:
+        q = f"{VAL}.{fname}"
+        fi = prog.func(q)
+        inst = fi.params()[0]
+        calls = sorted([n for n in ast.walk(fi.node) if isinstance(n, ast.Call) and attr_chain(n.func) == "validate_schema_instance"], key=lambda n: n.lineno)
+        if not calls:
+            raise AnalysisError(f"{q}: schema validation call not found")
+        vsi = prog.func(f"{VAL}.validate_schema_instance")
+
+        def helper_result(v):
+            """v is helper(<dict>, '<key>') -> (source dict name, key) else None"""
+            if isinstance(v, ast.Call) and attr_chain(v.func) in helpers and len(v.args) >= 2:
+                di, ki = helpers[attr_chain(v.func)]
+                a_d, a_k = v.args[di], v.args[ki]
+                if isinstance(a_d, ast.Name) and isinstance(a_k, ast.Constant):
+                    return a_d.id, a_k.value
+            return None
+
+        def has_upper(name: str, before: int, depth: int = 0) -> bool:
+            """is `key` upper-cased in the dict bound to `name` at line `before`?  (last binding / in-place store before that line)"""
+            if depth > 4:
+                return False
+            events = []  # (line, kind, payload)
+            for n in ast.walk(fi.node):
+                if isinstance(n, ast.Assign) and len(n.targets) == 1 and n.lineno < before:
+                    t, v = n.targets[0], n.value
+                    if isinstance(t, ast.Name) and t.id == name:
+                        events.append((n.lineno, "bind", v))
+                    if isinstance(t, ast.Subscript) and isinstance(t.value, ast.Name) and t.value.id == name and isinstance(t.slice, ast.Constant) and t.slice.value == key:
+                        events.append((n.lineno, "store", v))
+            ok_ = False
+            for ln, kind, v in sorted(events, key=lambda e: e[0]):
+                if kind == "store":
+                    src = f"{name}['{key}']"
+                    ok_ = _is_upper_of(v, src) or (isinstance(v, ast.Name) and any(
+                        isinstance(m, ast.Assign) and len(m.targets) == 1 and isinstance(m.targets[0], ast.Name) and m.targets[0].id == v.id and _is_upper_of(m.value, src) and m.lineno < ln
+                        for m in ast.walk(fi.node)))
+                else:
+                    hr = helper_result(v)
+                    if hr is not None:
+                        ok_ = hr[1] == key or has_upper(hr[0], ln, depth + 1)
+                    elif isinstance(v, ast.Name):
+                        ok_ = has_upper(v.id, ln, depth + 1)
+                    else:
+                        ok_ = False
+            return ok_
+
+        ok = True
+        for c in calls:
+            a = bind_args(vsi, c).get("instance")
+            hr = helper_result(a) if a is not None else None
+            if hr is not None:
+                good = hr[1] == key or has_upper(hr[0], c.lineno)
+            elif isinstance(a, ast.Name):
+                good = has_upper(a.id, c.lineno)
+            else:
+                good = False
+            ok = ok and good
+        res.ob("R18.4", f"{fname}: '{key}' is upper-cased in the instance that is handed to the schema validation", ok, prog.loc(fi, calls[0]))
         if not ok:
-            res.violation("R18.4", f"case:{fname}:{key}", prog.loc(fi, fi.node), q,
+            res.violation("R18.4", f"case:{fname}:{key}", prog.loc(fi, calls[0]), q,
                           f"'{key}' is not upper-cased in the instance before it is validated against an upper-case enum "
                           f"(mixed-case input would be rejected)")
     for q, param in LOADER_CASE:
